@@ -57,6 +57,34 @@ impl Obs {
     }
 }
 
+/// How a continuation is attached to a value producing action.
+#[derive(Clone, Copy, Debug, PartialEq, Eq, Serialize, Deserialize)]
+pub enum How {
+    /// `and_then`
+    Then,
+    /// `and_then_contextual`; the continuation closure reads this source directly from the agent
+    /// (recorded as `CtxGot`) before it builds the next handler.
+    Ctx(Src),
+    /// `and_then_try` (the closure fails when `try_fails(x)`).
+    Try,
+}
+
+/// The shared rule for the fallible combinators (`and_then_try`, `try_handler`): both the agent and the
+/// reference interpreter fail on exactly these values.
+pub fn try_fails(x: i64) -> bool {
+    x.rem_euclid(29) == 28
+}
+
+/// Lane value computed from an observed scalar (always < 1000, so it never collides with the unique
+/// values >= 1000 that remotes send).
+pub fn to_val(x: i64, off: i32) -> i32 {
+    x.wrapping_add(off as i64).rem_euclid(1000) as i32
+}
+
+pub fn arm_of(x: i64, n: usize) -> usize {
+    x.rem_euclid(n as i64) as usize
+}
+
 /// Generated program (selectors unresolved). Always valid: resolution maps every selector into range.
 #[derive(Clone, Debug, PartialEq, Eq, Serialize, Deserialize)]
 pub enum RP {
@@ -64,13 +92,39 @@ pub enum RP {
     Then(Box<RP>, Box<RP>),
     /// Mutate a lane of index >= level. kind: 0,1 = update, 2 = remove, 3 = clear (map lanes).
     Mut { sel: u16, kind: u8, k: i32, v: i32 },
-    Get { sel: u16, how: u8, k: i32 },
-    /// `get.and_then(|x| arms[x mod len])`.
-    Branch { sel: u16, how: u8, k: i32, arms: Vec<RP> },
+    /// `value.discard()`.
+    Discard(RV),
+    /// `first.and_then*(|x| arms[x mod len])`.
+    Branch { first: RV, how: u16, arms: Vec<RP> },
+    /// `first.and_then*(|x| mutate(lane, to_val(x, off)))`.
+    MutV { first: RV, how: u16, sel: u16, kind: u8, k: i32, off: i32 },
     Eff,
     Suspend { sel: u16, delay: u8 },
     Fail,
     Stop,
+}
+
+/// Generated value producing action (completion = i64).
+#[derive(Clone, Debug, PartialEq, Eq, Serialize, Deserialize)]
+pub enum RV {
+    Get { sel: u16, how: u8, k: i32 },
+    Const(i32),
+    /// `program.followed_by(value)`.
+    After(Box<RP>, Box<RV>),
+    /// `program.map(|_| c)`: the value producer's own last step may be a lane mutation.
+    Of(Box<RP>, i32),
+    /// `value.map(|x| x + c)`.
+    Map(Box<RV>, i32),
+    /// `first.and_then*(|x| arms[x mod len])` producing a value.
+    Bind { first: Box<RV>, how: u16, arms: Vec<RV> },
+    /// `join(a, b).map(|(x, y)| x + y)`.
+    Join(Box<RV>, Box<RV>),
+    /// `join3(a, b, c).map(|(x, y, z)| x + y + z)`.
+    Join3(Box<RV>, Box<RV>, Box<RV>),
+    /// `Some(Either::Left(value)).map(unwrap)` (the `Option` and `Either` handler impls).
+    Opt(Box<RV>),
+    /// `value.map(|x| if try_fails(x) { Err } else { Ok(x) }).try_handler()`.
+    Try(Box<RV>),
 }
 
 /// Concrete program.
@@ -82,12 +136,40 @@ pub enum P {
     Upd { lane: u8, k: i32, v: i32 },
     Rem { lane: u8, k: i32 },
     Clr { lane: u8 },
-    Get { src: Src },
-    Branch { src: Src, arms: Vec<P> },
+    Discard(V),
+    Branch { first: V, how: How, arms: Vec<P> },
+    /// `target` is a Set / Upd / Rem / Clr whose value is replaced by `to_val(x, off)`.
+    MutV { first: V, how: How, target: Box<P>, off: i32 },
     Eff(u32),
     Suspend { prog: u16, delay_ms: u64 },
     Fail,
     Stop,
+}
+
+/// Concrete value producing action.
+#[derive(Clone, Debug, PartialEq, Eq, Serialize, Deserialize)]
+pub enum V {
+    Get(Src),
+    Const(i32),
+    After(Box<P>, Box<V>),
+    Of(Box<P>, i32),
+    Map(Box<V>, i32),
+    Bind { first: Box<V>, how: How, arms: Vec<V> },
+    Join(Box<V>, Box<V>),
+    Join3(Box<V>, Box<V>, Box<V>),
+    Opt(Box<V>),
+    Try(Box<V>),
+}
+
+impl P {
+    /// The mutation `self` (a Set/Upd/Rem/Clr) with its value replaced.
+    pub fn with_value(&self, v: i32) -> P {
+        match self {
+            P::Set { lane, .. } => P::Set { lane: *lane, v },
+            P::Upd { lane, k, .. } => P::Upd { lane: *lane, k: *k, v },
+            other => other.clone(),
+        }
+    }
 }
 
 /// Lifecycle events of a lane. Value lanes: OnEvent, OnSet. Map lanes: OnUpdate, OnRemove, OnClear.
@@ -191,15 +273,21 @@ impl<'a> Resolver<'a> {
                     }
                 }
             }
-            RP::Get { sel, how, k } => P::Get { src: src_of(*sel, *how, *k) },
-            RP::Branch { sel, how, k, arms } => {
+            RP::Discard(v) => P::Discard(self.resv(v, cx)),
+            RP::Branch { first, how, arms } => {
+                let first = self.resv(first, cx);
                 if arms.is_empty() {
-                    return P::Get { src: src_of(*sel, *how, *k) };
+                    return P::Discard(first);
                 }
-                P::Branch {
-                    src: src_of(*sel, *how, *k),
-                    arms: arms.iter().map(|p| self.res(p, cx)).collect(),
+                P::Branch { first, how: self.how(*how, cx), arms: arms.iter().map(|p| self.res(p, cx)).collect() }
+            }
+            RP::MutV { first, how, sel, kind, k, off } => {
+                let first = self.resv(first, cx);
+                let target = self.res(&RP::Mut { sel: *sel, kind: *kind, k: *k, v: 0 }, cx);
+                if matches!(target, P::Eff(_)) {
+                    return P::Then(Box::new(P::Discard(first)), Box::new(target));
                 }
+                P::MutV { first, how: self.how(*how, cx), target: Box::new(target), off: *off }
             }
             RP::Eff => self.eff(),
             RP::Suspend { sel, delay } => {
@@ -231,6 +319,44 @@ impl<'a> Resolver<'a> {
             }
         }
     }
+
+    /// `and_then_try` can fail: only where aborts are allowed.
+    fn how(&self, how: u16, cx: RCtx) -> How {
+        let kind = if cx.allow_abort { how % 3 } else { how % 2 };
+        let sel = how / 3;
+        match kind {
+            0 => How::Then,
+            1 => How::Ctx(src_of(sel.wrapping_mul(3), sel as u8, sel as i32)),
+            _ => How::Try,
+        }
+    }
+
+    fn resv(&mut self, rv: &RV, cx: RCtx) -> V {
+        match rv {
+            RV::Get { sel, how, k } => V::Get(src_of(*sel, *how, *k)),
+            RV::Const(c) => V::Const(*c),
+            RV::After(p, v) => V::After(Box::new(self.res(p, cx)), Box::new(self.resv(v, cx))),
+            RV::Of(p, c) => V::Of(Box::new(self.res(p, cx)), *c),
+            RV::Map(v, c) => V::Map(Box::new(self.resv(v, cx)), *c),
+            RV::Bind { first, how, arms } => {
+                let first = self.resv(first, cx);
+                if arms.is_empty() {
+                    return first;
+                }
+                V::Bind { first: Box::new(first), how: self.how(*how, cx), arms: arms.iter().map(|v| self.resv(v, cx)).collect() }
+            }
+            RV::Join(a, b) => V::Join(Box::new(self.resv(a, cx)), Box::new(self.resv(b, cx))),
+            RV::Join3(a, b, c) => V::Join3(Box::new(self.resv(a, cx)), Box::new(self.resv(b, cx)), Box::new(self.resv(c, cx))),
+            RV::Opt(v) => V::Opt(Box::new(self.resv(v, cx))),
+            RV::Try(v) => {
+                if cx.allow_abort {
+                    V::Try(Box::new(self.resv(v, cx)))
+                } else {
+                    self.resv(v, cx)
+                }
+            }
+        }
+    }
 }
 
 pub fn resolve(raw: &RawTables) -> Tables {
@@ -258,10 +384,10 @@ pub fn resolve(raw: &RawTables) -> Tables {
     }
     // the probe: reads every lane (whole maps)
     run.push(P::Seq(vec![
-        P::Get { src: Src::Val(0) },
-        P::Get { src: Src::Map(1) },
-        P::Get { src: Src::Val(2) },
-        P::Get { src: Src::Map(3) },
+        P::Discard(V::Get(Src::Val(0))),
+        P::Discard(V::Get(Src::Map(1))),
+        P::Discard(V::Get(Src::Val(2))),
+        P::Discard(V::Get(Src::Map(3))),
     ]));
     Tables { start, stop, run, spawn, lane }
 }
@@ -273,24 +399,55 @@ fn arb_val() -> impl Strategy<Value = i32> {
     prop_oneof![4 => 1i32..60, 1 => -3i32..4]
 }
 
+fn arb_get() -> impl Strategy<Value = RV> {
+    (any::<u16>(), 0u8..2, 0i32..NKEYS).prop_map(|(sel, how, k)| RV::Get { sel, how, k })
+}
+
 fn arb_leaf(abort_w: u32) -> impl Strategy<Value = RP> {
     prop_oneof![
         50 => (any::<u16>(), 0u8..4, 0i32..NKEYS, arb_val()).prop_map(|(sel, kind, k, v)| RP::Mut { sel, kind, k, v }),
-        30 => (any::<u16>(), 0u8..2, 0i32..NKEYS).prop_map(|(sel, how, k)| RP::Get { sel, how, k }),
+        30 => arb_get().prop_map(RP::Discard),
         8 => Just(RP::Eff),
         10 => (any::<u16>(), 0u8..4).prop_map(|(sel, delay)| RP::Suspend { sel, delay }),
         abort_w => prop_oneof![Just(RP::Fail), Just(RP::Stop)],
     ]
 }
 
+/// Value producing actions over arbitrary sub-programs `p` (so that every combinator is reached with a
+/// first operand that takes several steps and changes a lane in a step that is not its last).
+fn arb_value(p: BoxedStrategy<RP>, depth: u32) -> BoxedStrategy<RV> {
+    let leaf = prop_oneof![6 => arb_get(), 1 => (0i32..40).prop_map(RV::Const)];
+    if depth == 0 {
+        return leaf.boxed();
+    }
+    let sub = arb_value(p.clone(), depth - 1);
+    prop_oneof![
+        5 => leaf,
+        6 => (p.clone(), sub.clone()).prop_map(|(p, v)| RV::After(Box::new(p), Box::new(v))),
+        4 => (p, 0i32..40).prop_map(|(p, c)| RV::Of(Box::new(p), c)),
+        2 => (sub.clone(), 0i32..20).prop_map(|(v, c)| RV::Map(Box::new(v), c)),
+        3 => (sub.clone(), any::<u16>(), proptest::collection::vec(sub.clone(), 1..3))
+            .prop_map(|(first, how, arms)| RV::Bind { first: Box::new(first), how, arms }),
+        2 => (sub.clone(), sub.clone()).prop_map(|(a, b)| RV::Join(Box::new(a), Box::new(b))),
+        1 => (sub.clone(), sub.clone(), sub.clone()).prop_map(|(a, b, c)| RV::Join3(Box::new(a), Box::new(b), Box::new(c))),
+        1 => sub.clone().prop_map(|v| RV::Opt(Box::new(v))),
+        1 => sub.prop_map(|v| RV::Try(Box::new(v))),
+    ]
+    .boxed()
+}
+
 /// A program of at most ~`size` nodes.
 pub fn arb_prog(depth: u32, size: u32, abort_w: u32) -> impl Strategy<Value = RP> {
     arb_leaf(abort_w).prop_recursive(depth, size, 4, |inner| {
+        let value = arb_value(inner.clone().boxed(), 2);
         prop_oneof![
             4 => proptest::collection::vec(inner.clone(), 1..5).prop_map(RP::Seq),
             2 => (inner.clone(), inner.clone()).prop_map(|(a, b)| RP::Then(Box::new(a), Box::new(b))),
-            2 => (any::<u16>(), 0u8..2, 0i32..NKEYS, proptest::collection::vec(inner, 1..4))
-                .prop_map(|(sel, how, k, arms)| RP::Branch { sel, how, k, arms }),
+            2 => value.clone().prop_map(RP::Discard),
+            2 => (value.clone(), any::<u16>(), proptest::collection::vec(inner, 1..4))
+                .prop_map(|(first, how, arms)| RP::Branch { first, how, arms }),
+            2 => (value, any::<u16>(), any::<u16>(), 0u8..4, 0i32..NKEYS, 0i32..30)
+                .prop_map(|(first, how, sel, kind, k, off)| RP::MutV { first, how, sel, kind, k, off }),
         ]
     })
 }
